@@ -30,6 +30,13 @@ func (g *c04Gen) mk(class string) string {
 	g.n++
 	i := g.n
 	p, q := fmt.Sprintf("P%d", i), fmt.Sprintf("Q%d", i)
+	switch i % 5 {
+	case 1:
+		p = fmt.Sprintf("\u00c9tape%d", i) // identifiers are not ASCII-only: any letter starts one
+	case 3:
+		p = fmt.Sprintf("\u03a9_%d", i)
+	}
+	refForm := []string{"brace", "plain"}[g.rng.Intn(2)] // $NAME and ${NAME} are the same reference (what follows is never an identifier character)
 	g.env[q] = fmt.Sprintf("BAD%d", i) // an escaped reference must never be looked up
 	lead := ""
 	switch class {
@@ -54,6 +61,20 @@ func (g *c04Gen) mk(class string) string {
 		g.strings = append(g.strings, [2]any{s, toks})
 		return s
 	}
+	if i != g.failAt && g.rng.Intn(8) == 0 {
+		// the ONLY interpolation syntax of this string is one bare `$name` whose name starts with a non-ASCII letter
+		u := fmt.Sprintf("\u00e9tape%d", i)
+		if g.rng.Intn(2) == 0 {
+			u = fmt.Sprintf("\u03a9mega%d", i)
+		}
+		if g.rng.Intn(3) > 0 {
+			g.env[u] = fmt.Sprintf("u%d", i) // (else unset: expands to "")
+		}
+		toks = append(toks, tokRef(u, "plain"), tokLit(". end"))
+		s := spell(toks)
+		g.strings = append(g.strings, [2]any{s, toks})
+		return s
+	}
 	if i == g.failAt {
 		toks = append(toks, tokReq(p))
 	} else {
@@ -63,7 +84,7 @@ func (g *c04Gen) mk(class string) string {
 		}
 		switch g.rng.Intn(6) {
 		case 0: // unset: expands to ""
-			toks = append(toks, tokRef(p, "brace"))
+			toks = append(toks, tokRef(p, refForm))
 		case 1:
 			g.env[p] = fmt.Sprintf("v%d", i)
 			toks = append(toks, tokDflt(p, dflt, "empty"))
@@ -75,7 +96,7 @@ func (g *c04Gen) mk(class string) string {
 			toks = append(toks, tokReq(p))
 		default:
 			g.env[p] = fmt.Sprintf("v%d", i)
-			toks = append(toks, tokRef(p, "brace"))
+			toks = append(toks, tokRef(p, refForm))
 		}
 	}
 	toks = append(toks, tokLit("."), tokEsc(q, []string{"dd", "bs"}[g.rng.Intn(2)]))
